@@ -167,7 +167,7 @@ type IdentityWithParamComponent<TParam extends object> = <
   clientComponentField: (data: TParam, componentProps: TComponentProps) => TClientFieldReturn
 ) => (data: TParam, componentProps: TComponentProps) => TClientFieldReturn;
 
-type WhitespaceCharacter = ' ' | '\\t' | '\\n';
+type WhitespaceCharacter = ' ' | '\\t' | '\\n' | '\\r' | '\\f' | '\\uFEFF';
 type Whitespace<In> = In extends `${WhitespaceCharacter}${infer In}`
   ? Whitespace<In>
   : In;
